@@ -1334,7 +1334,7 @@ def s390_cksum32(data, csum=0):
     return csum
 
 
-def c03_write_s390os(path, npages=32, ps=4096):
+def c03_write_s390os(path, npages=32, ps=4096, os_info=True):
     """s390x stand-alone dump whose lowcore points to a valid os_info page (with VMCOREINFO entry and checksums) and to a
     VMCOREINFO ELF note: what `addrxlat.ostype = linux` parses on s390x.  Returns dict(fields=, bounds=, size=)."""
     hdr_size = 4096
@@ -1350,7 +1350,8 @@ def c03_write_s390os(path, npages=32, ps=4096):
     pages[NOTE // ps][0:len(note)] = note
     lc = pages[0]
     lc[0xe0c:0xe14] = struct.pack(">Q", NOTE)
-    lc[0xe18:0xe20] = struct.pack(">Q", OSI)
+    if os_info:                   # (else: NULL os_info pointer, the library falls back to the note behind LC_VMCORE_INFO)
+        lc[0xe18:0xe20] = struct.pack(">Q", OSI)
     osi = bytearray(ps)
     body = struct.pack(">HHQQ", 1, 6, 0, 0) + struct.pack(">QQI", VMCI, len(vmci), s390_cksum32(vmci)) + struct.pack(">QQI", 0, 0, 0)
     osi[12:12 + len(body)] = body
@@ -1472,3 +1473,20 @@ def write_elf_table(path, segs, ps=4096, machine="x86_64", elfclass=64, be=False
                 f.write(bytes(s["data"][:s["filesz"]]).ljust(s["filesz"], b"\0"))
         f.truncate(max(off, f.tell()))
     return dict(e_phnum=e_phnum, e_shnum=e_shnum, e_shoff=shoff, sh_size=sh_size, sh_info=nph if xnum else 0, nph=nph, xnum=xnum)
+
+
+def c03_s390x_elf_lowcore(path, ps=4096):
+    """c16_write_s390x_elf() in its legacy-lowcore form (NULL os_info, LC_VMCORE_INFO -> ELF note in dump memory) with a complete
+    VMCOREINFO note, plus the field table of the lowcore pointers and the note header.  Returns dict(fields=, bounds=, size=)."""
+    vmci = b"OSRELEASE=5.4.0-s390x\nPAGESIZE=4096\n"
+    c16_write_s390x_elf(path, note=(11, len(vmci)), ps=ps)
+    img = bytearray(open(path, "rb").read())
+    hdr = struct.pack(">III", 11, len(vmci), 0) + b"VMCOREINFO\0\0"
+    n = img.find(hdr)
+    img[n + 24:n + 24 + len(vmci)] = vmci
+    with open(path, "wb") as f:
+        f.write(img)
+    lc = n - 0x1800
+    fields = [("lc.vmcoreinfo", lc + 0xe0c, 8, 1), ("lc.os_info", lc + 0xe18, 8, 1), ("note.namesz", n, 4, 1), ("note.descsz", n + 4, 4, 1),
+              ("note.type", n + 8, 4, 1), ("note.name[0]", n + 12, 1, 1)]
+    return dict(fields=fields + elf_fields(64, True, nph=1), bounds=sorted({0, 64, lc, n, n + 12, n + 24, n + 24 + len(vmci), len(img)}), size=len(img))
